@@ -1089,3 +1089,197 @@ def phase_switch_frame(g):
         g.forall_paths(f"{cls}.infer:re-phasing-moves-only-block-singletons-to-a-child-of-their-own-block", paths, inf_pred,
                        "the only write: mutation_nodes[blocks != NULL] = edge_children[where(.., block_edges[block, 1], block_edges[block, 0])] "
                        "with block = mutation_blocks of the same mutation")
+
+
+# =====================================================================================================================
+# C15 (last clause): "each node's mixture prior mean and variance are the span-weighted mixture moments of the
+# corresponding coalescent priors" -- ConditionalCoalescentTimes.mixture_expect_and_var.
+#
+# Specification: over all (N, k) components with weight w, prior mean m and prior variance v,
+#       mean = sum(w m) / sum(w),      var = sum(w (v + m^2)) / sum(w) - mean^2            (law of total variance)
+# with w = span (default) or log(span + 1) (weight_by_log_span).  The real loop body is executed symbolically for a
+# generic dictionary item: every `np.sum(<element-wise expression>)` is classified by proving (z3, for all m, v, w) that
+# its element-wise expression equals one of  m w, v w, m^2 w, w, (v + m^2) w ;  each accumulator must then grow by a
+# fixed linear combination of these per-item sums (loop invariant: accumulator = that combination of the running
+# totals), start at 0, and the statements after the loop must give the specified mean / variance from the totals.
+def mixture_moments(g):
+    name = "prior.ConditionalCoalescentTimes.mixture_expect_and_var"
+    try:
+        fn = extract.get_function(name)
+    except LookupError as e:
+        g.ob(f"{name}:attach", False, "function exists", str(e), verdict="does-not-attach")
+        return
+    g.ctx.functions.append({**fn.describe(), "mode": "G3 + z3: symbolic execution of the real loop body for a generic mixture component"})
+    g.ctx.add_assumption("C15/A-NUMPY: np.sum of an element-wise expression over the component arrays is the sum of that expression; "
+                         "self[N][tips, column] reads the stored prior mean / variance of the listed components (A-REAL)")
+    m, v, w = z3.Reals("m v w")
+    BASIS = {"mw": m * w, "vw": v * w, "mmw": m * m * w, "w": w}
+    TOT = {k: z3.Real("total_" + k) for k in BASIS}      # running totals over the items seen so far
+    ITEM = {k: z3.Real("item_" + k) for k in BASIS}      # the sums over the current item
+    LOGW = z3.Function("log", z3.RealSort(), z3.RealSort())
+    loops = [n for n in fn.node.body if isinstance(n, ast.For)]
+    if len(loops) != 1 or _norm(ast.unparse(loops[0].iter)) != _norm("mixture.items()"):
+        g.ob(f"{name}:mixture-moments", False, "one loop over mixture.items()", f"loops: {[ast.unparse(n.iter) for n in loops]}", verdict="does-not-attach")
+        return
+    loop = loops[0]
+    pre = fn.node.body[:fn.node.body.index(loop)]
+    post = fn.node.body[fn.node.body.index(loop) + 1:]
+
+    class El:  # element-wise value: a z3 Real expression over (m, v, w)
+        def __init__(self, e):
+            self.e = e
+
+    def ev(e, env, flag):
+        t = _norm(ast.unparse(e))
+        if isinstance(e, ast.Constant) and isinstance(e.value, (int, float)) and not isinstance(e.value, bool):
+            return z3.RealVal(repr(e.value))
+        if isinstance(e, ast.Name):
+            if e.id == "weight_by_log_span":
+                return flag
+            if e.id in env:
+                return env[e.id]
+            raise Stuck(f"name {e.id}")
+        if t == _norm("self[N][tip_dict['descendant_tips'], self.mean_column]"):
+            return El(m)
+        if t == _norm("self[N][tip_dict['descendant_tips'], self.var_column]"):
+            return El(v)
+        if t == _norm("tip_dict['span']"):
+            return El(z3.Real("span"))
+        if isinstance(e, ast.IfExp):
+            c = ev(e.test, env, flag)
+            if not isinstance(c, bool):
+                raise Stuck(f"condition {t}")
+            return ev(e.body if c else e.orelse, env, flag)
+        if isinstance(e, ast.Call) and ast.unparse(e.func) == "np.log" and len(e.args) == 1:
+            a = ev(e.args[0], env, flag)
+            if isinstance(a, El):
+                return El(LOGW(a.e))
+            raise Stuck(t)
+        if isinstance(e, ast.Call) and ast.unparse(e.func) == "np.sum" and len(e.args) == 1 and not e.keywords:
+            a = ev(e.args[0], env, flag)
+            if not isinstance(a, El):
+                raise Stuck(f"np.sum of a non-array {t}")
+            # classify: a.e (with the weight symbol substituted) == linear combination of the basis, found by trying basis sums
+            cands = {"mw": BASIS["mw"], "vw": BASIS["vw"], "mmw": BASIS["mmw"], "w": BASIS["w"],
+                     "vw+mmw": BASIS["vw"] + BASIS["mmw"]}
+            for k, b in cands.items():
+                s = z3.Solver()
+                s.set("timeout", 10000)
+                s.add(a.e != b)
+                if s.check() == z3.unsat:
+                    return ITEM["vw"] + ITEM["mmw"] if k == "vw+mmw" else ITEM[k]
+            raise Stuck(f"np.sum({ast.unparse(e.args[0])}) is none of sum(m w), sum(v w), sum(m^2 w), sum(w)")
+        if isinstance(e, ast.BinOp) and isinstance(e.op, (ast.Add, ast.Sub, ast.Mult, ast.Div, ast.Pow)):
+            a, b = ev(e.left, env, flag), ev(e.right, env, flag)
+            ae, be = (a.e if isinstance(a, El) else a), (b.e if isinstance(b, El) else b)
+            if isinstance(e.op, ast.Pow):
+                if not (z3.is_rational_value(be) and be.as_fraction() == 2):
+                    raise Stuck(f"power in {t}")
+                r = ae * ae
+            else:
+                r = {ast.Add: lambda: ae + be, ast.Sub: lambda: ae - be, ast.Mult: lambda: ae * be, ast.Div: lambda: ae / be}[type(e.op)]()
+            return El(r) if isinstance(a, El) or isinstance(b, El) else r
+        if isinstance(e, ast.Tuple):
+            return tuple(ev(x, env, flag) for x in e.elts)
+        raise Stuck(f"expression `{ast.unparse(e)}`")
+
+    def run(stmts, env, flag):
+        for s in stmts:
+            if isinstance(s, ast.Expr) and isinstance(s.value, ast.Constant):
+                continue
+            if isinstance(s, ast.Assign):
+                val = ev(s.value, env, flag)
+                for t in s.targets:
+                    if isinstance(t, ast.Name):
+                        env[t.id] = val
+                    elif isinstance(t, ast.Tuple) and isinstance(val, tuple) and len(val) == len(t.elts):
+                        for x, y in zip(t.elts, val):
+                            env[x.id] = y
+                    else:
+                        raise Stuck(f"assignment `{ast.unparse(s)}`")
+                continue
+            if isinstance(s, ast.AugAssign) and isinstance(s.target, ast.Name) and isinstance(s.op, (ast.Add, ast.Sub)):
+                a, b = env.get(s.target.id), ev(s.value, env, flag)
+                if a is None or isinstance(b, El) or isinstance(a, El):
+                    raise Stuck(f"`{ast.unparse(s)}`")
+                env[s.target.id] = a + b if isinstance(s.op, ast.Add) else a - b
+                continue
+            if isinstance(s, ast.Return):
+                env["<ret>"] = ev(s.value, env, flag)
+                continue
+            raise Stuck(f"statement `{ast.unparse(s)[:60]}`")
+        return env
+    for flag in (False, True):
+        ob = f"{name}:mixture-moments-are-the-weighted-moments[weight_by_log_span={flag}]"
+        clause = ("mean == sum(w m)/sum(w), var == sum(w (v + m^2))/sum(w) - mean^2 over all components, w = "
+                  + ("log(span + 1)" if flag else "span") + "   [z3: accumulators start at 0, grow by the per-item sums, final formulas]")
+        try:
+            env0 = run(pre, {}, flag)
+            accs = [k for k, val in env0.items() if z3.is_expr(val)]
+            # the weight must be the specified one: evaluate `w` for this flag and compare with span / log(span+1)
+            envb = dict(env0)
+            # body with accumulators as opaque symbols
+            sym = {a: z3.Real("acc_" + a) for a in accs}
+            envb.update(sym)
+            # bind the element-wise weight symbol: after executing the body, env['w'] holds the code's weight expression
+            probe = run([s for s in loop.body if isinstance(s, ast.Assign)], dict(envb), flag)
+            wexpr = probe.get("w")
+            span = z3.Real("span")
+            want_w = LOGW(span + 1) if flag else span
+            s = z3.Solver()
+            if not isinstance(wexpr, El):
+                raise Stuck("the weight `w` is not an element-wise value")
+            s.add(wexpr.e != want_w)
+            if s.check() != z3.unsat:
+                g.ob(ob, False, clause, f"the weight is {wexpr.e}, specified {want_w}")
+                continue
+            # now run the body with w as the generic weight symbol
+            class _W(ast.NodeTransformer):
+                pass
+            body_env = dict(envb)
+            stmts = []
+            for st_ in loop.body:
+                if isinstance(st_, ast.Assign) and len(st_.targets) == 1 and ast.unparse(st_.targets[0]) == "w":
+                    body_env["w"] = El(w)
+                    continue
+                stmts.append(st_)
+            # execute statements in order, inserting w when its assignment is reached
+            env1 = dict(envb)
+            for st_ in loop.body:
+                if isinstance(st_, ast.Assign) and len(st_.targets) == 1 and ast.unparse(st_.targets[0]) == "w":
+                    env1["w"] = El(w)
+                else:
+                    env1 = run([st_], env1, flag)
+            bad = None
+            zero = [env0[a] for a in accs]
+            sol = z3.Solver()
+            sol.add(z3.Or(*[z != 0 for z in zero]) if zero else z3.BoolVal(True))
+            if not zero or sol.check() != z3.unsat:
+                bad = f"accumulators {accs} do not all start at 0"
+            inc = {a: z3.simplify(env1[a] - sym[a]) for a in accs}
+            # after the loop: accumulator = increment with item sums replaced by totals (induction over the items)
+            sub = [(ITEM[k], TOT[k]) for k in BASIS]
+            envp = dict(env0)
+            for a in accs:
+                envp[a] = z3.substitute(inc[a], *sub)
+                if any(str(sym[b]) in str(inc[a]) for b in accs):
+                    bad = bad or f"the increment of `{a}` depends on an accumulator: {inc[a]}"
+            envp = run(post, envp, flag)
+            ret = envp.get("<ret>")
+            if not (isinstance(ret, tuple) and len(ret) == 2):
+                raise Stuck("the function does not return (mean, var)")
+            A, B, C, D = TOT["mw"], TOT["vw"], TOT["mmw"], TOT["w"]
+            s = z3.Solver()
+            s.set("timeout", 20000)
+            s.add(D > 0)
+            s.add(z3.Or(ret[0] != A / D, ret[1] != (B + C) / D - (A / D) * (A / D)))
+            r = s.check()
+            if r == z3.sat and not bad:
+                mdl = s.model()
+                bad = "counter-model over the totals: " + ", ".join(f"{d.name()}={mdl[d]}" for d in mdl.decls() if d.arity() == 0)
+            elif r == z3.unknown and not bad:
+                g.ob(ob, False, clause, "z3 unknown", verdict="unknown")
+                continue
+            g.ob(ob, not bad, clause, bad)
+        except Stuck as e:
+            g.ob(ob, False, clause, f"the evaluator cannot follow {e}", verdict="does-not-attach")
